@@ -24,6 +24,8 @@ def run(chk):
 
     # ------------------------------------------------------------------ C02.g immediates are bounded before they are narrowed / encoded
     a64common.rule_imm(chk, A)
+    a64common.rule_validators(chk, A)
+    a64common.rule_tables(chk, A)
 
     return chk.finish(
         level="other",
